@@ -143,8 +143,9 @@ def run(ctx):
                     i = 0
                     while i < 40:
                         i += 1
-                        r, _ = ir.op(["create", f"/R{i:02d}.TXT"])
-                        done.append(["create", f"/R{i:02d}.TXT"])
+                        nm = f"/R{i:02d}.TXT" if (i % 2 or rep % 2) else f"/R{i:02d} long name in the root.TXT"     # long names: slots, not entries, fill the root
+                        r, _ = ir.op(["create", nm])
+                        done.append(["create", nm])
                         if r[0] != "ok":
                             break
                 free = free_clusters(ir)
